@@ -50,6 +50,12 @@ def swap_xy(v, normals=False):
 
 
 def run(ctx):
+    from .. import extents, selectk, singoff
+
+    # the hypersingular assemblers of this property: index / extent agreement and the cut of the stacked singular rules
+    extents.index_extents(ctx)
+    singoff.offset_roles(ctx)
+    selectk.select_modes(ctx)
     reg = K.registries(ctx)
     vals = {}
     r_spec = ctx.rule("K-SPEC", "each registered Laplace/Helmholtz/modified kernel == closed form (G, dG/dn_y, dG/dn_x)", 18)
